@@ -3,10 +3,14 @@
 //!
 //!   vcheck run <id> <quick|thorough>      exit 0 held / 1 VIOLATION / 2 inconclusive
 //!   vcheck replay <file>                  re-run one saved case through the plain oracle
+mod calib;
 #[macro_use]
 mod engine;
+mod evgen;
 mod fuzzsupport;
+mod fwd;
 mod gen;
+mod model;
 mod names;
 mod props;
 
